@@ -109,3 +109,6 @@ fn k_lower(n: usize, dm: u8, nd: u8, packing: bool) {
   kani::cover!(n == 0 || a.d[0] > nd, "cell deeper than the new depth");
   p_lower(&a, nd, packing, c);
 }
+
+/// Cut at `pack` for callers that pack a concrete sequence (all-sky coverage): identity; pack is decided by the pack harnesses.
+pub(crate) fn stub_pack_identity(b: &mut BMOCBuilderUnsafe) -> Vec<u64> { b.entries.take().expect("Empty builder!") }
